@@ -205,12 +205,16 @@ def c03e(ctx):
             ctx.bad('%s:dimension-mismatch%d' % (f.short, k), msg + ' -- a dropped or inverted factor is wrong for every resolution != 1', f, node)
 
 
-def _range_sign(r):
-    """+1 / -1 for range(a, b[, step]) or reversed(range(..))"""
+def _range_sign(r, defs=None, depth=3):
+    """+1 / -1 for range(a, b[, step]) or reversed(range(..)); a range bound to a local first is followed"""
+    if isinstance(r, ast.Name) and defs is not None and depth > 0:
+        ds = defs.of(r.id)
+        if len(ds) == 1 and ds[0][1] is None:
+            return _range_sign(ds[0][0], defs, depth - 1)
     if is_call(r, 'list') and r.args:
-        r = r.args[0]
+        return _range_sign(r.args[0], defs, depth)
     if is_call(r, 'reversed') and r.args:
-        s = _range_sign(r.args[0])
+        s = _range_sign(r.args[0], defs, depth)
         return -s if s else None
     if not is_call(r, 'range'):
         return None
@@ -253,12 +257,12 @@ def c03f(ctx):
         signs = {}
         for n in ys:
             flipped = g.guarded(n, lambda at: at.op is None and 'flipped_y_axis' in unparse(at.expr), True)
-            signs[flipped] = _range_sign(g.stmt[n].value)
+            signs[flipped] = _range_sign(g.stmt[n].value, fdefs)
         ok = ok and signs.get(True) == 1 and signs.get(False) == -1
         ctx.check(ok, '%s:rows-top-first' % fn.short, 'rows ascend on a flipped (top-origin) axis and descend otherwise: the first row is the top row', fn,
                   fail='row order %s (flipped axis -> %s, otherwise -> %s): rows are not listed from the top' % (fn.short, signs.get(True), signs.get(False)))
         xs = [s for s in fn.walk() if isinstance(s, ast.Assign) and unparse(s.targets[0]) == xv]
-        ok = bool(xs) and all(_range_sign(s.value) == 1 for s in xs)
+        ok = bool(xs) and all(_range_sign(s.value, fdefs) == 1 for s in xs)
         ctx.check(ok, '%s:columns-left-first' % fn.short, 'columns ascend', fn)
     ct = ctx.fn(G + ':_create_tile_list')
     loops = [s for s in ct.walk() if isinstance(s, ast.For)]
